@@ -32,13 +32,13 @@ func list(s string) []string {
 // changes the answer is the property itself and is left to the checks.)
 func selfcheck() {
 	f := NewFix([]string{"d1"}, []string{"t1"})
-	f.Must("root", "CREATE USER 'u1'@'localhost'")
+	f.Must(admin, "CREATE USER 'u1'@'localhost'")
 	want := func(user, q, kind string) {
 		if r := f.Exec(user, q); r.Kind != kind {
 			vio.Fatal("fixture self-check: %s as %s: got %s %s, want %s", q, user, r.Kind, r.Msg, kind)
 		}
 	}
-	want("root", "SELECT * FROM d1.t1", "rows")
+	want(admin, "SELECT * FROM d1.t1", "rows")
 	want("u1", "SELECT * FROM d1.t1", "denied")
 	want("nobody", "SELECT * FROM d1.t1", "denied")
 	want("u1", "INSERT INTO d1.t1 VALUES (5,5)", "denied")
